@@ -100,6 +100,52 @@ def success_blocks(body):
     return out
 
 
+ERROR_DISCARDING = {'brotli::CompressorWriter::into_inner': 'brotli 8: `into_inner` runs `flush_or_close(FINISH)` and drops its io::Result (`match .. { Ok(_) => {}, Err(_) => {} }`)'}
+
+
+def discarded_sink_errors(prog, rep, RULE='R20.7'):
+    """"callbacks that report failure return an error status": an error the destination reports is never thrown away by an adaptor standing in front of it.
+    Some dependency calls discard the io::Error of the writes they issue (table ERROR_DISCARDING, confirmed by reading the dependency); at each such call
+    site inside a function that returns a Result, the writer the call hands back must be asked for the error it saw -- a workspace method returning a Result
+    on that value, reached on every path to an Ok result -- and the wrapper's `write` must record it."""
+    mla = prog.crates['mla']
+    n = 0
+    cnt = collections.Counter()
+    for body in mla.bodies:
+        if body.kind == 'Closure' or not body.lty(0).startswith('std::result::Result<'):
+            continue
+        for b in body.calls():
+            cn = cnorm(b.term)
+            if cn not in ERROR_DISCARDING or b.term.dest is None or b.term.target is None:
+                continue
+            n += 1
+            rep.fn(body)
+            key = RULE + '|%s|%s#%d|error-examined' % (body.nkey, cn.rsplit('::', 2)[-2] + '::' + cn.rsplit('::', 1)[-1], cnt[body.nkey])
+            cnt[body.nkey] += 1
+            handed = forward_locals(body, [b.term.dest[0]], through_calls=False)
+            checks = []
+            for c in body.calls():
+                t = c.term
+                if c.idx == b.idx or not t.args or t.args[0].place is None or t.args[0].place[0] not in handed or t.dest is None:
+                    continue
+                cands, exact = resolve_call(prog, body, t)
+                if exact and len(cands) == 1 and cands[0].pkg == 'mla' and body.lty(t.dest[0]).startswith('std::result::Result<'):
+                    # ... and the method does look at an error the wrapper kept
+                    reads_latch = any(st.kind == 'assign' and any(pl is not None and any(p[0] == 'f' and 'std::io::Error' in str(p[4]) for p in pl[1]) for pl in st.rv.src_places())
+                                      for bl in cands[0].blocks for st in bl.stmts)
+                    if reads_latch:
+                        checks.append(c.idx)
+            r = reachable_vs(body, b.term.target, removed_blocks=checks)
+            oks = [x for x in r if not body.blocks[x].cleanup and any(st.kind == 'assign' and st.place == (0, ()) and st.rv.r == 'aggregate' and st.rv.j.get('variant') == 'Ok'
+                                                                       for st in body.blocks[x].stmts)]
+            tails = [x for x in r if body.blocks[x].term.kind == 'call' and body.blocks[x].term.dest == (0, ()) and not body.blocks[x].cleanup]
+            ok = bool(checks) and not oks and not tails
+            rep.ob(RULE, ok, key, 'the writer handed back is asked for the error it recorded before success is reported' if ok else
+                   '%s discards the error of the writes it issues (%s) and nothing examines what the destination reported before the function returns Ok: a write callback '
+                   'that fails while the compressed stream is being closed goes unnoticed and the archive is short' % (cn, ERROR_DISCARDING[cn].split(':')[0]), body.loc(b.idx))
+    rep.floor(RULE, n, 2, 'calls that discard the errors of the writer they own, in functions returning a Result')
+
+
 def run(prog, rep, tier):
     c = prog.crates['mla-bindings-c']
     ext = [b for b in c.bodies if b.kind != 'Closure' and (b.abi or '').startswith('C')]
@@ -402,6 +448,9 @@ def run(prog, rep, tier):
                 'extraction does not route through the caller-supplied writers as documented (guard=%s writer=%s map=%s)' % (okg, okw, okm)
         rep.ob('R20.5', ok, 'R20.5|%s|extract-via-caller-writers' % exi.nkey, msg, exi.loc())
 
+
+    # ---------------- R20.7 no adaptor throws away an error of the destination
+    discarded_sink_errors(prog, rep, 'R20.7')
 
     # ---------------- R20.6 no write is parked in a buffer when the status is computed
     nbuf = 0
